@@ -170,8 +170,8 @@ PROPS["C17"] = dict(
     explanation="PROVED: parseChunk as a generator under contract with the environment appending arbitrary bytes at every wait (contracts/c17_chunk.py; parseLine/parseLeader by their callee contracts, no chunk extension): size = hex value of the stripped size line, rejected with HTTPException iff empty or not all hex digits; the chunk is exactly the first `size` bytes of the stream after the size line (it waits for them), exactly those are consumed, the line after the data must be empty, framing lines end with CRLF only; last chunk carries the parsed trailers. parseLine step contracts with eols=(CRLF,) PROVED (chunk-size and chunk-end lines). Chunk decode round trip packChunk -> parseChunk over random bodies, chunk partitions, "
                 "trailers and wire fragmentations, and rejection of non-plain-hex sizes: bounded natively. " + HTTP_NOTE)
 PROPS["C15"] = dict(
-    contracts=["contracts.http_parse"], harness="harness.http_native:C15", level="other", trusted_base=HTTP_EXT,
-    explanation="parseLine step contracts with eols=(CRLF, LF, CR) (earliest-terminator and prefix-stability clauses: both are recorded findings on this tree). Event dispatch against an SSE reference "
+    contracts=["contracts.http_parse", "contracts.c15_events"], harness="harness.http_native:C15", level="other", trusted_base=HTTP_EXT,
+    explanation="PROVED: one ARBITRARY turn of EventSource.parseEvents as a generator under contract (contracts/c15_events.py; pending id/name and a list of data lines of any length arbitrary at the head of the turn; parseLine by callee contract with eols (CRLF, LF, CR)): a wait changes nothing; an empty line dispatches -- JOIN of the data lines, exactly one event {id, name, data} iff data is non-empty (parsed JSON when dictable), then name and data reset, id kept; comment lines change nothing; event/data/id/retry fields update exactly their slot with the value minus ONE leading space, data appended as the LAST line; unknown fields ignored; no event is queued except by a dispatch; the run ends only after the dispatch on a closed connection. parseLine step contracts with eols=(CRLF, LF, CR) (earliest-terminator and prefix-stability clauses: both are recorded findings on this tree). Event dispatch against an SSE reference "
                 "written from the ABNF, plain and chunked transport, all line-terminator mixes, fragmentations: bounded natively. " + HTTP_NOTE)
 PROPS["C16"] = dict(
     contracts=["contracts.http_parse", "contracts.c17_chunk", "contracts.c13_body", "contracts.c13_leader"], harness="harness.http_native:C16", level="other", trusted_base=HTTP_EXT,
